@@ -114,6 +114,9 @@ func (l *EventLog) Hash() string {
 type Control struct {
 	Name string
 	Log  *EventLog
+	// Unhashed: the calls are kept in the trace but do not enter the run hash (engines whose
+	// subject runs goroutines of its own across the very calls a fault is placed at)
+	Unhashed bool
 
 	mu       sync.Mutex
 	Calls    int
@@ -132,6 +135,14 @@ type Control struct {
 	KeepTrace bool
 	Trace    []string
 	TornDone string
+}
+
+func (c *Control) logf(format string, a ...interface{}) {
+	if c.Unhashed {
+		c.Log.Note(format, a...)
+		return
+	}
+	c.Log.Add(format, a...)
 }
 
 func NewControl(name string, log *EventLog) *Control {
@@ -164,10 +175,10 @@ func (c *Control) gate2(kind string, mut bool, detail, traceDetail string) (cras
 		c.Reads++
 		if c.ErrAtRead[idx] {
 			c.ErrFired++
-			c.Log.Add("%s %s(%s) -> injected error", c.Name, kind, detail)
+			c.logf("%s %s(%s) -> injected error", c.Name, kind, detail)
 			return false, ErrInjected
 		}
-		c.Log.Add("%s %s(%s)", c.Name, kind, detail)
+		c.logf("%s %s(%s)", c.Name, kind, detail)
 		return false, nil
 	}
 	idx := c.Muts
@@ -182,15 +193,15 @@ func (c *Control) gate2(kind string, mut bool, detail, traceDetail string) (cras
 	if idx == c.CrashAt {
 		c.Frozen = true
 		c.Crashed = true
-		c.Log.Add("%s %s(%s) -> CRASH", c.Name, kind, detail)
+		c.logf("%s %s(%s) -> CRASH", c.Name, kind, detail)
 		return true, ErrFrozen
 	}
 	if c.ErrAtMut[idx] {
 		c.ErrFired++
-		c.Log.Add("%s %s(%s) -> injected error", c.Name, kind, detail)
+		c.logf("%s %s(%s) -> injected error", c.Name, kind, detail)
 		return false, ErrInjected
 	}
-	c.Log.Add("%s %s(%s)", c.Name, kind, detail)
+	c.logf("%s %s(%s)", c.Name, kind, detail)
 	return false, nil
 }
 
